@@ -768,6 +768,11 @@ func (t *TS) useInode(s *State, in ssa.Instruction, a AV, what string) {
 		bad := ts.St != "live"
 		t.event("use", in, what, id, ts, bad, nil)
 	}
+	// a possibly-nil inode (GetInodeFh / GetInodeInum / AllocInode result not yet tested) that is dereferenced or
+	// handed to code that will dereference it; handing it to an inlined helper is judged inside the helper
+	if a.K == KInode && a.MayNil && !strings.HasPrefix(what, "argument of ") {
+		t.event("niluse", in, what, "", TxnSt{}, true, map[string]string{"src": a.Src})
+	}
 }
 
 // step executes one non-phi, non-terminator instruction.
